@@ -111,7 +111,7 @@ func VerifC06_Loop() {
 	data := map[string]any{"outer": "OUT", "items": []string{"a", "b"}, "nv": 9}
 	switch mode {
 	case 0: // scoped by name
-		body = `<template include="list.vuego"><template v-slot="s"><b>{{ s.item }}-{{ outer }}</b></template></template>`
+		body = `<template include="list.vuego"><template v-slot="s"><!-- note --><b>{{ s.item }}-{{ outer }}</b><!-- end --></template></template>`
 		want = `<ul><li><b>a-OUT</b></li><li><b>b-OUT</b></li></ul>`
 	case 1: // nothing supplied: fallback per iteration
 		body = `<template include="list.vuego"></template>`
@@ -182,7 +182,7 @@ func VerifC06_Loop() {
 		}
 		want += `</ul>`
 		data["rows"] = rows
-		body = `<template include="flags.vuego"><template #default="p"><b style="color:red" v-show="p.row.on" :title="p.row.id">{{ p.row.id }}</b></template></template>`
+		body = `<template include="flags.vuego"><template #default="p"><!-- per row --><b style="color:red" v-show="p.row.on" :title="p.row.id">{{ p.row.id }}</b></template></template>`
 		out, err := zzRenderVia(zzEntry(), zzC06FS(), nil, body, data)
 		zzNote("template", body)
 		zzNote("out", out)
